@@ -181,6 +181,46 @@ nni_cv_until(nni_cv *cv, nni_time when)
 	return NNG_ETIMEDOUT;
 }
 
+#ifdef COMPL
+/* C02 (+C05/C07/C09 fan-out): the completion list of the real core/aio.c (nni_aio_completions_init / _add / _run): a
+ * provider that completes several operations from one event (SUB delivering one message to every waiting context, a
+ * survey answered to several receivers, ...) collects them under its lock and completes them after releasing it.
+ * COMPL (2..4) started operations are taken over by the list with symbolic results and counts: every one of them is
+ * completed exactly once, each with its own result and count; the list is empty afterwards and can be used again. */
+void
+harness(void)
+{
+	nng_init_params prm;
+	memset(&prm, 0, sizeof(prm));
+	prm.num_expire_threads = 1;
+	CHECK(nni_aio_sys_init(&prm) == NNG_OK, "aio_sys_init");
+	EQ = nni_aio_expire_q_list[0];
+	nni_aio_completions cl;
+	nng_err             res[4];
+	size_t              cnt[4];
+	nni_aio_completions_init(&cl);
+	for (int i = 0; i < COMPL; i++) {
+		nni_aio_init(&A[i], the_callback, NULL);
+		nni_aio_set_timeout(&A[i], NNG_DURATION_INFINITE);
+		nni_aio_reset(&A[i]);
+		CHECK(nni_aio_start(&A[i], prov_cancel, (void *) (intptr_t) i), "operation started");
+		res[i] = ND(vbool) ? NNG_OK : NNG_ECONNRESET;
+		cnt[i] = ND(usz);
+		nni_aio_completions_add(&cl, &A[i], res[i], cnt[i]);
+	}
+	nni_aio_completions_run(&cl);
+	CHECK(cl == NULL, "the completion list is empty after it has been run");
+	for (int i = 0; i < COMPL; i++) {
+		CHECK(cb_pending[i] == 1, "C02: every operation handed to a completion list is completed exactly once - none is forgotten, whatever its position in the list");
+		CHECK(nni_aio_result(&A[i]) == res[i] && nni_aio_count(&A[i]) == cnt[i], "each with its own result and count");
+	}
+	nni_aio_completions_run(&cl);
+	for (int i = 0; i < COMPL; i++)
+		CHECK(cb_pending[i] == 1, "running an empty list completes nothing again");
+	CHECK(env_locks_held == 0, "no lock held");
+	WITNESS("end");
+}
+#else
 void
 harness(void)
 {
@@ -217,3 +257,4 @@ harness(void)
 		WITNESS("expiry thread slept and woke for a later deadline");
 	WITNESS("end");
 }
+#endif
